@@ -27,7 +27,7 @@ THEOREM_FILES = ['Props/C01.v']
 ALLOWED_AXIOMS = []
 LABEL = ('full for the model (framing, Buffer, recv_message, send_data chunk loop; every size, cut, '
          'padding and schedule); the codec is outside (messages are opaque byte strings); one boundary '
-         'recorded as finding D21 (recv_message called again after it raised on a truncated stream)')
+         'recorded as finding D41 (recv_message called again after it raised on a truncated stream)')
 TRUSTED = ['modelled, not verified: asyncio.Queue.get/put_nowait wake-up (a blocked get returns the head '
            'item once one exists), BytesIO.read, struct.pack/unpack of "?" and ">I", hyper-h2 turning '
            'DATA frames into DataReceived(data, flow_controlled_length = len + padding + 1)',
@@ -38,7 +38,7 @@ TRUSTED = ['modelled, not verified: asyncio.Queue.get/put_nowait wake-up (a bloc
            'H2Connection.local_flow_control_window); Buffer.add/eof calls recorded by a class wrapper']
 ASSUMPTIONS = ['one task at a time calls recv_message on a stream (no concurrent readers of one Buffer)',
                'the consumer stops calling recv_message after end-of-stream or the first exception '
-               '(see finding D21 for what happens otherwise)',
+               '(see finding D41 for what happens otherwise)',
                'no cancellation of recv_message between its two reads (outside the quantifier of C01: a '
                'cancelled call loses the 5-byte prefix it already consumed)',
                'flow_controlled_length >= len(data) for every DATA event (h2 guarantees it)',
